@@ -543,10 +543,17 @@ func (svr *Server) getSession(svc *service, req *message.ConnectMessage, resp *m
 	// If found, return it.
 	if !req.CleanSession() {
 		if svc.sess, err = svr.sessMgr.Get(cid); err == nil {
-			resp.SetSessionPresent(true)
+			if svc.sess.Cmsg.CleanSession() {
+				// This is the session of a CleanSession=1 connection whose end
+				// the server has not worked off yet. Its state must not be
+				// reused; a new session replaces it below.
+				svc.sess = nil
+			} else {
+				resp.SetSessionPresent(true)
 
-			if err := svc.sess.Update(req); err != nil {
-				return err
+				if err := svc.sess.Update(req); err != nil {
+					return err
+				}
 			}
 		}
 	}
